@@ -320,6 +320,42 @@ def r4b_single_writer(ctx):
         ctx.violation("C05.R4b", (SAMP, "AlgorithmWithSamplersMixin.__init__"), None, "no statement derives `n_burn_in_iter` any more", construct="writers of n_burn_in_iter")
 
 
+def r6_iteration_counter(ctx):
+    """The schedule is indexed by the iteration number k = 1 .. n_iter: the counter the phase test and the step size read is driven by the
+    loop `for self.current_iteration in range(1, n_iter + 1)` (one maximisation step per pass) and by nothing else."""
+    from ..astq import canon_lines
+    ctx.rule("C05.R6", "the iteration counter runs 1 .. n_iter, one iteration per value, and has no other writer", 3)
+    ix = ctx.ix
+    run = ix.func(FIT, "TensorMcmcSaemAlgorithm._run", "C05.R6")
+    L = canon_lines(run.node, True, True)
+    loops = [i for i, ln in enumerate(L) if ln.startswith("for (") and ln.endswith(", $0.current_iteration)")]
+    if len(loops) != 1:
+        ctx.unknown("C05.R6", run, run.node, f"{len(loops)} loop(s) drive the iteration counter in the fit (one expected)", construct="fit loop")
+    else:
+        hdr = L[loops[0]]
+        ok = hdr == "for (range(1, $0.algo_parameters['n_iter'] + 1), $0.current_iteration)"
+        import re as _re
+        m = _re.fullmatch(r"for \(range\((?P<args>.*)\), \$0\.current_iteration\)", hdr)
+        if ok:
+            ctx.ok("C05.R6", run, run.node, "k = 1 .. n_iter", construct="fit loop")
+        elif m:
+            ctx.violation("C05.R6", run, run.node, f"the fit iterates over `range({m.group('args')})`, not `range(1, n_iter + 1)`: the phase boundary and the step sizes are evaluated at shifted iteration numbers "
+                          "(or the last iterations are missing)", construct="fit loop")
+        else:
+            ctx.unknown("C05.R6", run, run.node, f"iteration loop `{hdr[:80]}` is not a range", construct="fit loop")
+        nxt = L[loops[0] + 1] if loops[0] + 1 < len(L) else ""
+        ctx.check(_re.fullmatch(r"\$0\._iteration\(\$1, %\d+\)", nxt) is not None, "C05.R6", run, run.node, "one `_iteration` per value of the counter",
+                  f"the first statement of the loop is `{nxt[:60]}`, not the iteration itself", construct="one iteration per pass")
+    # other writers of the counter (package-wide): constructors (= 0) and loop headers only
+    for f in ix.iter_funcs():
+        for st in statements(f.node):
+            if isinstance(st, (ast.Assign, ast.AugAssign, ast.AnnAssign)):
+                for t in (st.targets if isinstance(st, ast.Assign) else [st.target]):
+                    if isinstance(t, ast.Attribute) and t.attr == "current_iteration":
+                        ok = f.name == "__init__" and isinstance(st, (ast.Assign, ast.AnnAssign)) and st.value is not None and U(st.value) == "0"
+                        ctx.check(ok, "C05.R6", f, st, "constructor sets the counter to 0", f"`{U(st)[:60]}` writes the iteration counter outside the iteration loop: the schedule is read at a wrong iteration number")
+
+
 def r5_statistics_not_rewritten(ctx):
     """After a memory-less step `self.sufficient_statistics` IS the dictionary returned by compute_sufficient_statistics, whose entries
     are the State's own tensors: an in-place operation on a value read from the State rewrites S_(k-1) before it enters the convex
@@ -339,6 +375,7 @@ def rules(ctx):
     r3_validation(ctx)
     r4_length(ctx)
     r4b_single_writer(ctx)
+    r6_iteration_counter(ctx)
     r5_statistics_not_rewritten(ctx)
     ctx.trust("Python int comparison / arithmetic semantics for the enumerated guards; sympy expand")
 
